@@ -522,6 +522,87 @@ pub fn case_json(case: &Case) -> Value {
     json!({"driver": "desmon", "sub": "c20", "case": serde_json::to_value(case).unwrap()})
 }
 
+// -------------------------------------------------------------------------------------------------
+// a run that ended with errors: two relays whose send on their transit gate was rejected, backlog between them
+// -------------------------------------------------------------------------------------------------
+
+struct FailSrc {
+    n: usize,
+}
+impl Module for FailSrc {
+    fn at_sim_start(&mut self, _: usize) {
+        for _ in 0..self.n {
+            send(Message::default().kind(K_DATA).with_content(Body(Tracked::new("data-message-body"), 500)), "out");
+        }
+    }
+}
+struct FailRelay {
+    fails: bool,
+    _state: Tracked,
+}
+impl Module for FailRelay {
+    fn at_sim_start(&mut self, _: usize) {
+        if self.fails {
+            // the documented panic: "g" is a transit gate (caught by the module harness, run() returns an error)
+            send(Message::default().kind(K_DATA).with_content(Body(Tracked::new("data-message-body"), 10)), "g");
+        }
+    }
+}
+struct FailDst {
+    _state: Tracked,
+}
+impl Module for FailDst {}
+
+/// src.out -> r1.g ==slow queueing channel==> r2.g -> dst.in; r1 and / or r2 try to send onto their transit gate at
+/// start-up; the run is stopped by a time limit with messages on the wire and in the channel queue
+pub fn failed_relays_probe(rng: &mut Rng) -> (Vec<Finding>, tracked::Summary) {
+    tracked::reset();
+    let (f1, f2) = *rng.pick(&[(true, true), (true, false), (false, true), (true, true)]);
+    let n = 2 + rng.usize_below(4);
+    let stop_ns = *rng.pick(&[1_000_000_000u64, 2_500_000_000]);
+    let res = vcommon::catch(move || {
+        let mut sim = Sim::new(());
+        sim.node("src", FailSrc { n });
+        sim.node("r1", FailRelay { fails: f1, _state: Tracked::new("module-state") });
+        sim.node("r2", FailRelay { fails: f2, _state: Tracked::new("module-state") });
+        sim.node("dst", FailDst { _state: Tracked::new("module-state") });
+        let (o, g1, g2, i) = (sim.gate("src", "out"), sim.gate("r1", "g"), sim.gate("r2", "g"), sim.gate("dst", "in"));
+        o.connect(g1.clone(), None);
+        let slow = ChannelMetrics::new(4_000, Duration::from_nanos(MS), Duration::ZERO, ChannelDropBehaviour::Queue(None));
+        g1.connect(g2.clone(), Some(Channel::new(slow)));
+        g2.connect(i, None);
+        let rt = Builder::seeded(2).quiet().max_time(SimTime::from_duration(Duration::from_nanos(stop_ns))).build(sim.freeze());
+        match rt.run() {
+            Ok((app, _, prof)) => {
+                drop(prof);
+                drop(app);
+                false
+            }
+            Err(e) => {
+                drop(e);
+                true
+            }
+        }
+    });
+    let summary = tracked::summary();
+    let mut f = Vec::new();
+    match res {
+        Err(p) => f.push(("panicked", format!("a simulation whose relays send onto their transit gates panicked out of run(): {p}"))),
+        Ok(errored) => {
+            if !errored {
+                f.push(("panicked", "a rejected send on a transit gate did not make run() return an error".into()));
+            }
+        }
+    }
+    if !summary.double_drops.is_empty() {
+        f.push(("dropped-twice", format!("run ended with errors (relays r1 / r2 fail: {f1} / {f2}): {}", summary.describe())));
+    }
+    if !summary.alive.is_empty() {
+        f.push(("alive-after-drop", format!("run ended with errors (relays r1 / r2 fail: {f1} / {f2}, {n} messages, stopped at {stop_ns} ns with a backlog in the channel): after dropping everything {} values are still alive: {}", summary.alive.len(), summary.describe())));
+    }
+    (f, summary)
+}
+
 pub fn cmd(args: &Args) -> Report {
     let mut rep = Report::new("C20");
     let mut rng = Rng::new(args.stream_seed("c20"));
@@ -536,6 +617,17 @@ pub fn cmd(args: &Args) -> Report {
     }
     let mut stop = false;
     for i in 0..cases {
+        if i % 50 == 7 && !small_mode {
+            let (findings, summary) = failed_relays_probe(&mut rng);
+            rep.count("runs_ended_with_errors_by_rejected_sends_on_transit_gates", 1);
+            rep.count("tokens_created", summary.created);
+            rep.count("tokens_dropped_exactly_once", summary.dropped);
+            for (kind, detail) in findings.into_iter().take(1) {
+                if !rep.violation(&format!("C20/{kind}"), &detail, json!({"driver": "desmon", "sub": "c20", "failed_relays_probe": true, "note": "re-run the check with the same seed"})) {
+                    stop = true;
+                }
+            }
+        }
         let small = small_mode || i % 4 == 0;
         let base = gen_case(&mut rng, small);
         // small models: every event-count prefix
